@@ -21,6 +21,10 @@ import (
 
 	"github.com/Masterminds/semver"
 	conregv1 "github.com/google/go-containerregistry/pkg/v1"
+	"k8s.io/apimachinery/pkg/runtime/schema"
+
+	pkgv1 "github.com/crossplane/crossplane/apis/pkg/v1"
+	"github.com/crossplane/crossplane/apis/pkg/v1beta1"
 )
 
 type c17Dep struct {
@@ -271,7 +275,9 @@ func init() {
 			c17VerExhaustive(c)
 		}
 		for i := 0; i < c.N; i++ {
-			switch k := c.Rng.Intn(24); {
+			switch k := c.Rng.Intn(25); {
+			case k == 24:
+				c17GlueRandom(c)
 			case k < 4:
 				c17DagRandom(c)
 			case k < 7:
@@ -291,8 +297,19 @@ func init() {
 	})
 	RegisterDump("C17Tables", func() string {
 		_, err := semver.NewVersion("")
+		gv := func(g schema.GroupVersionKind) string { return g.GroupVersion().String() }
+		q := strconv.Quote
 		return "/-- semver.NewVersion(\"\") succeeds (probed on the library in /repo's module graph) -/\n" +
-			"def c17SemverParsesEmpty : Bool := " + strconv.FormatBool(err == nil) + "\n"
+			"def c17SemverParsesEmpty : Bool := " + strconv.FormatBool(err == nil) + "\n" +
+			"/-- v1beta1.ConfigurationPackageType / ProviderPackageType / FunctionPackageType -/\n" +
+			"def c17TypeConfiguration : String := " + q(string(v1beta1.ConfigurationPackageType)) + "\n" +
+			"def c17TypeProvider : String := " + q(string(v1beta1.ProviderPackageType)) + "\n" +
+			"def c17TypeFunction : String := " + q(string(v1beta1.FunctionPackageType)) + "\n" +
+			"/-- package type ↦ (apiVersion, kind) of the package object, in the order of the switch of resolver.NewPackage -/\n" +
+			"def c17KindTable : List (String × String × String) := [" +
+			"(" + q(string(v1beta1.ConfigurationPackageType)) + ", " + q(gv(pkgv1.ConfigurationGroupVersionKind)) + ", " + q(pkgv1.ConfigurationKind) + "), " +
+			"(" + q(string(v1beta1.ProviderPackageType)) + ", " + q(gv(pkgv1.ProviderGroupVersionKind)) + ", " + q(pkgv1.ProviderKind) + "), " +
+			"(" + q(string(v1beta1.FunctionPackageType)) + ", " + q(gv(pkgv1.FunctionGroupVersionKind)) + ", " + q(pkgv1.FunctionKind) + ")]\n"
 	})
 }
 
@@ -328,6 +345,11 @@ func c17Replay(c *Ctx, raw []byte) {
 		var s c17RecScn
 		if jsonUnmarshalStrict(raw, &s) == nil {
 			c17RecEmit(c, s, "corpus")
+		}
+	case "glue":
+		var s c17GlueScn
+		if jsonUnmarshalStrict(raw, &s) == nil {
+			c17GlueEmit(c, s, "corpus")
 		}
 	case "recw":
 		var s c17WScn
